@@ -45,7 +45,7 @@ def run_one(tape, opts):
     out = Outcome()
     spec = pl.gen_stack(tape)
     top = spec[0]
-    hist = pl.gen_history(tape, extras=True)
+    hist = pl.gen_history(tape, extras=True, max_tests=9 if opts.get("tier") == "thorough" else 5)
     # keep calls the outermost adapter cannot take by construction out of the history
     # (progress() is forwarded unconditionally by TestResultDecorator and absent from MultiTestResult/TestResult:
     # whether a given stack supports it is a property of the stack, not of the adapters' delivery guarantee)
